@@ -22,7 +22,7 @@ from ..world import canonical_dir_bytes
 
 # concrete names: a sibling of directory "s" and of directory "s/t" whose name is the directory's name plus a character
 # that sorts before "/" - there the order of key tuples and the order of joined paths (the canonical one) differ
-PATHS = {"a": "s.a", "b": "b é", "s/c": "s/t.c.dir", "s/t/d": "s/t/d d", "e": ".e"}
+PATHS = {"a": "s.a", "b": "b e\u0301", "s/c": "s/t.c.dir", "s/t/d": "s/t/d d", "e": ".e"}
 SUBDIRS = {"s": ["s/c", "s/t/d"], "s/t": ["s/t/d"]}
 REV = {v: k for k, v in PATHS.items()}
 
@@ -165,6 +165,18 @@ def run_trace(case, seed):
                 t2.digest()
                 events.append({"act": {"op": "Perm"}, "res": {"entries": lst, "listing": d.listing_of(t2),
                                                               "oid_canon": bool(d.canon_ok(t2)), "same_as_first": t2.oid == obj.oid}})
+            elif op == "UpdateMeta":
+                # the directory as it is NOW, built cold, lends its metadata to the tree built last
+                from dvc_data.hashfile.tree import update_meta
+
+                if d.last_obj is None or not any(os.path.lexists(d.path(p)) for p in PATHS):
+                    continue
+                theirs, _m, _p, _l, _raw = d.build("noop")
+                ours = d.last_obj
+                upd = update_meta(ours, theirs)
+                events.append({"act": a, "res": {"listing": d.listing_of(upd), "oid_canon": bool(d.canon_ok(upd)),
+                                                 "same_oid": upd.oid == ours.oid}})
+                d.last_obj = upd
             elif op == "BuildOther":
                 # the same directory staged for the legacy algorithm, with the same State
                 from dvc_data.hashfile.build import build as _build
@@ -240,6 +252,9 @@ def directed_cases():
         cases.append({"id": 10_100 + i, "init": init, "ops": ops, "jobs": [None, 1, 4][i % 3], "linked": ["e", "s/c"]})
         # two edits of one file a quarter of a second apart - the same size, the same inode, the same whole second - with a
         # build (warm cache) after each
+        # an edit between two builds, then the later build's metadata carried onto the earlier tree
+        cases.append({"id": 10_300 + i, "init": init, "jobs": None,
+                      "ops": [real, {"op": "Edit", "p": p, "c": newc}, {"op": "UpdateMeta"}, {"op": "Edit", "p": "e", "c": "-"}, {"op": "UpdateMeta"}]})
         twice = [{"op": "Edit", "p": p, "c": "c3"}, real, {"op": "Edit", "p": p, "c": "c1"}, real, {"op": "Edit", "p": p, "c": "c3"}, real]
         cases.append({"id": 10_200 + i, "init": init, "ops": twice, "jobs": [None, 1, 4][i % 3], "linked": ["e"] if i % 2 else []})
     return cases
